@@ -1608,8 +1608,9 @@ def _make_safe(c):
 from contracts import c03_flow  # noqa: E402
 
 from contracts import c03_sections  # noqa: E402
+from contracts import c03_docx  # noqa: E402
 
-EXTRA = [c03_flow.construction_sites, c03_flow.heading_iterators, c03_sections.odt_step, c03_sections.native_sections,
+EXTRA = [c03_flow.construction_sites, c03_flow.independence_sites, c03_flow.slide_text_navigation, c03_flow.heading_iterators, c03_docx.obligations, c03_sections.odt_step, c03_sections.native_sections,
          c03_sections.native_documents, c03_sections.slide_text_fragments]
 known_findings = c03_sections.known_findings
 REPLAY_UNKNOWN = True    # an obligation the solver leaves unknown is searched natively (replay/C03.py) before it is reported undecided
@@ -1627,7 +1628,9 @@ ASSUMED_MODELS = ["xml.etree Element.find/findall/get (contracts/etree_model.py:
 NOT_CLAIMED = ["coverage of the body by the heading-section units: discharged only as the one-paragraph step contract of OdtContent.iterate_units "
                "(contracts/c03_sections.py::odt_step); for doc / docx (and the end-to-end effect for odt) there is only the BOUNDED native "
                "section scope, and docx documents with body text before the first heading or with a heading without text are recorded "
-               "findings (C03-docx-body-before-first-heading, C03-docx-heading-without-text) excluded from that scope",
+               "findings (C03-docx-body-before-first-heading, C03-docx-heading-without-text) excluded from that scope; that a docx section is dropped only "
+               "under a deeper heading is a z3 contract (contracts/c03_docx.py), for odt the heading of a body-less section is lost (recorded finding "
+               "C03-odt-heading-of-empty-section-lost, the heading-path clause is switched off for those headings only)",
                "get_full_text of ppt/xls/rtf/doc/docx/odt (the statement lists eleven formats; these six are documented otherwise)",
                "that the text of element k is complete is discharged only for odp / pptx slide text (fragment contracts shared with C02) and the "
                ".eml body (contract shared with C16); for the other formats it is covered by the BOUNDED generated-document scope only "
@@ -1646,4 +1649,5 @@ BOUNDED = ["C03/replay::generated-documents[documents:<format>]/bounded#units-mi
            "listed per obligation in the evidence (never counted as discharged)",
            "C03/replay::heading-sections[DocContent|DocxContent|OdtContent]/bounded#body-text-in-the-unit-of-its-section.BOUNDED: every document of "
            "<= 5 paragraphs over {h1, h2 (fixed, hence repeated, texts), heading without text, body paragraph with distinct / repeated text, "
-           "empty paragraph} built natively and compared with the section spec of replay/C03.py (never counted as discharged)"]
+           "empty paragraph}, docx / odt also over {h1, h2, h3 with texts of their own, body paragraph} with the heading-path clause, built natively and "
+           "compared with the section spec of replay/C03.py (never counted as discharged)"]
